@@ -293,3 +293,10 @@ def replay(case, ctx):
         run_bump(ctx, case)
     else:
         run_real(ctx, case["iso3"], case["options"], "c18_replay")
+
+
+# coverage-guided tier (vlib/fuzz.py): the three hand-off helpers, guided by branch coverage of parameters.py
+FUZZ_IMPORTS = ["src.optimizer.parameters", "src.food_system.food", "src.food_system.unit_conversions"]
+FUZZ_TARGETS = {"min_needs": (lambda ctx: (min_needs_case(), lambda c: run_min_needs(ctx, c)), 1500, 60000, 2),
+                "meat": (lambda ctx: (meat_case(), lambda c: run_meat(ctx, c)), 3000, 150000, 2),
+                "bump": (lambda ctx: (bump_case(), lambda c: run_bump(ctx, c)), 3000, 150000, 2)}
